@@ -40,7 +40,7 @@ sys.path.insert(0, os.path.dirname(os.path.abspath(__file__)))
 from rustscan import Source, Lost, code_mask  # noqa: E402
 
 BEGIN, END = '/*@+*/', '/*@-*/'
-SPECS = os.path.join(os.path.dirname(os.path.dirname(os.path.abspath(__file__))), 'specs')
+SPECS = os.environ.get('VERIF_SPECS') or os.path.join(os.path.dirname(os.path.dirname(os.path.abspath(__file__))), 'specs')  # VERIF_SPECS: development only
 
 
 class Undecided(Exception):
